@@ -498,6 +498,22 @@ pub fn run(ctx: &Ctx) -> Finish {
             check_case(l, &case);
         }
     });
+    // ---- 1b. long functions (31..100 terms) with replacements for the first, a middle and the last id
+    let long = super::c01::long_functions();
+    ctx.par(long.len(), |l, i| {
+        let (f, ids) = &long[i];
+        l.states += 1;
+        let (a, m, z) = (ids[0], ids[ids.len() / 2], *ids.last().unwrap());
+        let maps: Vec<Vec<(u64, FnRep)>> = vec![
+            vec![(a, FnRep::Const(2.0))],
+            vec![(z, FnRep::Lin { terms: vec![(a, 1.0), (m, -0.5)], c: 1.0 })],
+            vec![(a, FnRep::Lin { terms: vec![(z, 1.0)], c: 0.0 }), (z, FnRep::Lin { terms: vec![(a, 1.0)], c: 0.0 }), (m, FnRep::Quad { entries: vec![(a, z, 1.0)], lin: None })],
+            ids.iter().step_by(2).map(|id| (*id, FnRep::Lin { terms: vec![(z + 3, 1.0)], c: 0.5 })).collect(),
+        ];
+        for m in maps {
+            check_case(l, &Case::Fun { f: f.clone(), map: m });
+        }
+    });
     // ---- 2. instance level
     let insts = c04_instances(ctx.tier);
     let lin = |terms: Vec<(u64, f64)>, c: f64| FnRep::Lin { terms, c };
@@ -635,7 +651,7 @@ pub fn run(ctx: &Ctx) -> Finish {
     ctx.note("dependency_graphs", json!(graphs_total));
     Finish {
         level: "model_checking",
-        rule: "(1) Function::substitute: function family x every replacement map over keys {1,2,7,9} with each entry from 7 replacement shapes incl. an unnormalised one (8^4 maps incl. the empty one; replacements mention other replaced ids to test simultaneity); (2) Instance::substitute: instance family (replaced variables with and without finite bounds that the replacement values exceed) x first map (incl. an unnormalised linear replacement) x optional second map (chain) x states, under every iteration order of the dependency map (hook H1), composed instance compared as polynomials and the Solution compared with the original evaluated at the completed state; log_encode->substitute->evaluate on every bit pattern; (3) every dependency graph on n dependents (each sums any subset of {other dependents, itself, a valued variable, a value-less variable}) x every one of the n! iteration orders through the real Instance::evaluate, oracle = Kahn; watchdog turns a hang into a violation".into(),
+        rule: "(1) Function::substitute: function family x every replacement map over keys {1,2,7,9} with each entry from 7 replacement shapes incl. an unnormalised one (8^4 maps incl. the empty one; replacements mention other replaced ids to test simultaneity); (1b) long functions (31..100 terms) under four replacement maps; (2) Instance::substitute: instance family (replaced variables with and without finite bounds that the replacement values exceed) x first map (incl. an unnormalised linear replacement) x optional second map (chain) x states, under every iteration order of the dependency map (hook H1), composed instance compared as polynomials and the Solution compared with the original evaluated at the completed state; log_encode->substitute->evaluate on every bit pattern; (3) every dependency graph on n dependents (each sums any subset of {other dependents, itself, a valued variable, a value-less variable}) x every one of the n! iteration orders through the real Instance::evaluate, oracle = Kahn; watchdog turns a hang into a violation".into(),
         bounds: json!({"graph_n_max_exhaustive": max_n, "graph_n5": "chains/cycles/diamonds/complete DAG", "replacement_keys": keys, "function_family": fs.len()}),
         exhaustive: true,
     }
